@@ -512,7 +512,8 @@ def check_property(prop, tier, seed):
                 "faults_fired": {"preemptions": agg["preemptions"], "worker_switches": agg["switches"], "stalls_ge_100_steps": agg["stalls"],
                                  "clock_reads": agg["clock_reads"], "clock_zero_increments": agg["clock_zero"], "clock_forward_jumps": agg["clock_jumps"],
                                  "poisoned_released_stacks": agg["poisoned_stacks"], "poisoned_released_results": agg["poisoned_results"],
-                                 "seeded_random_draws": agg["rand_draws"], **counters},
+                                 "seeded_random_draws": agg["rand_draws"],
+                                 "buggified_run_queue_trylock_failures": site_named.get("bug_wsq_trylock", 0), **counters},
                 "distinct_preemption_site_pairs_summed_over_runs": agg["switch_pairs_sum"],
                 "fair_drain_started_runs": agg["drained"],
                 "strategies_hist": dict(zip(["uniform", "sticky", "pct", "stall", "round_robin"], strategies)),
